@@ -6,7 +6,10 @@ Nothing of the analysed repository is imported or executed; everything is
 import ast
 import hashlib
 import os
+import warnings
 from pathlib import Path
+
+warnings.filterwarnings("ignore", category=SyntaxWarning)   # the repository uses non-raw regex strings
 
 PKG = "src/scinumtools"
 
